@@ -295,6 +295,12 @@ def rule_E5(ctx, R):
         ok = True
         nret = 0
         for p in paths:
+            for pr in p.problems:
+                if pr["k"] in ("DOUBLE_ACQ", "ACQ_WHILE_HELD"):
+                    ok = False
+                    _viol(res, "E5", f, "acquired-twice", "%s (n=%d): member %s is acquired again while this call already holds it: it "
+                                                          "ends up held twice (or the call waits on itself) (path: %s)" % (
+                                                              label, n, pr.get("recv"), p.trace()[:400]))
             if p.kind != "ret":
                 continue
             nret += 1
